@@ -5,6 +5,7 @@ import random
 
 import numpy as np
 
+from ..probes import InjectedFault
 from ..probes import Clock, Models, make_names
 from ..scriptrng import dfs, PALETTE_SMALL
 from ..harness import make_storage, Scenario, gen_cfg
@@ -172,7 +173,12 @@ def main(run):
 
             def scen(rng=None):
                 clock.reset()
-                res = imp.impute(container, x, n) if n % 2 else imp.impute(feature_subset=container, x_i=x, n_samples=n)
+                try:
+                    res = imp.impute(container, x, n) if n % 2 else imp.impute(feature_subset=container, x_i=x, n_samples=n)
+                except (Bad, InjectedFault):
+                    raise
+                except Exception as ex:          # a legal request (stored rows, known features, n_samples >= 1) must be served
+                    raise Bad("impute-raises", f"impute raised {type(ex).__name__}: {ex}")
                 inputs = [e[1] for e in clock.log if e[0] == "model"]
                 return res, inputs
             try:
@@ -240,6 +246,14 @@ def main(run):
                 x, y, ret, log = sc.step(update_storage=False) if (t > 0 and t % 4 == 3) else sc.step()
             except KeyError as ex:
                 run.other_error(f"C15:step:{type(ex).__name__}")
+                break
+            except Exception as ex:
+                import traceback
+                if any("imputer" in fr_.filename.replace("\\", "/").split("/ixai/")[-1] for fr_ in traceback.extract_tb(ex.__traceback__) if "/ixai/" in fr_.filename.replace("\\", "/")):
+                    run.violation(f"{kind}{'-' + cfg['imputer'] if kind == 'marginal' else ''}:impute-raises",
+                                  f"explain_one: the imputer raised {type(ex).__name__}: {ex} | cfg {cfg} step {t}", {"cfg": cfg, "seed": seed, "step": t})
+                else:
+                    run.other_error(f"C15:step:{type(ex).__name__}")
                 break
             calls = [e for e in log if e[0] == "impute.call"]
             rets = [e for e in log if e[0] == "impute.ret"]
